@@ -79,6 +79,23 @@ CHECKS.update({
    technique="Coq proof of the iterator's bounds discipline on arbitrarily mutated stores + interleaving exploration in a sacrificial child process",
    ref="DESIGN.md section 6 C15"),
 })
+CHECKS.update({
+ "C04": dict(
+   text="Theorems (all under the guard that only the ROOT holds a single leaf without oid): C04_footprint_set_partial / C04_footprint_del_partial (every stored object whose record would differ after an insert / delete was marked changed by that operation -- each modification is announced), C04_commit_partial (a commit that dumps, in ANY order, every registered object and every object that received an oid brings every record up to date), C04_reader_partial (a fresh reader of up-to-date records sees precisely the writer's contents, by descent and along the leaf chain, in a state satisfying the stored invariant), and C04_refuted (without the guard the statement is false: witness tree and dump order, the reader gets two copies of a leaf -- finding F16). The model (events -> registration, getstate with the embedding rule, order-dependent commit, reader) is compared with C and Python through a data manager: registered and read-current sets after every call, the dump sequence, the reader's view after every commit (the model predicts the F16 corruption exactly when it happens), aborts; the hypotheses of the theorems are evaluated as boolean checks on every real step / commit.",
+   note="Partial: guard no_embed_below (F16 is a recorded finding of both implementations); harness/minijar.py stands in for ZODB's connection (three dump orders); the glue from per-operation footprint to 'synced after every history' is checked on runs, not proved; abort is modelled as restoring the last committed tree. Print Assumptions: closed.",
+   technique="Coq proofs about a hand-written persistence model (write footprint, order-independent commit under a guard, reader reconstruction, refutation witness) + differential correspondence through a mini data manager",
+   ref="DESIGN.md section 6 C04"),
+ "C16": dict(
+   text="Theorems C16_owned (after ANY history of leaf operations -- insert, replace, delete, clear, pop, minKey, release by the caller -- the net references the extension took on every object equal the key slots + value slots holding it + the references handed to the caller), C16_released, C16_never_freed_while_stored, about a model with INCREF/DECREF where BucketTemplate.c / SetTemplate.c have them. The harness compares sys.getrefcount deltas of probe objects with the model after leaf histories, and, for trees, after EVERY call of histories (error paths, failing comparisons, pop/popitem/setdefault/update, set algebra, merges, pickling, eviction, destruction) with the number of leaf slots and node-key slots holding each probe.",
+   note="Partial: the Coq model covers the leaf; interior node keys (index >= 1 owns a reference) are checked by the harness oracle only; reads or writes outside allocated memory are not observable without a sanitizer build (crashes are). F11 (Set.pop/TreeSet.pop leak) found and fixed. Print Assumptions: closed.",
+   technique="Coq proof of an ownership invariant over an INCREF/DECREF model + per-call reference-count differential check",
+   ref="DESIGN.md section 6 C16"),
+ "C17": dict(
+   text="Theorems C17_grow, C17_insert, C17_inserts, C17_resize: in a block-heap model where a successful realloc always releases the old block, for EVERY placement of the failing allocation request, Bucket_grow / an insert / any number of inserts from the empty bucket / the realloc pair of __setstate__ and fromBytes end in a state where no field refers to a released block, the two vectors are distinct live blocks, nothing leaks, and the length is the previous one (MemoryError) or the new one. The harness counts the allocations of every allocating operation with the BTREES_VERIF hook and fails each one in turn (insert, splits, root split, update, setstate, set operations, multiunion, merge, fromBytes, pickling) in a child process under MALLOC_CHECK_/MALLOC_PERTURB_: MemoryError, contents before-or-after, _check(), follow-up workload, destruction; allocation counts of n inserts are compared with the model.",
+   note="Partial: the model covers the bucket vectors (the sites of finding F14, repaired); BTree_grow/BTree_split/_BTree_setstate are exercised by the harness only; allocations made by CPython itself are outside the hook; __setstate__ losing the previous contents on MemoryError is recorded as F26. Print Assumptions: closed.",
+   technique="Coq proof over an explicit block heap with failing allocation oracle + exhaustive allocation-failure injection through a guarded hook",
+   ref="DESIGN.md section 6 C17"),
+})
 NOT_YET = {}
 
 def main():
